@@ -141,7 +141,9 @@ pub fn glr() -> ZooLang {
 pub fn lexla() -> ZooLang {
     let g = G::new("lexla")
         .rule("source", rep(sym("_item")))
-        .rule("_item", choice(vec![sym("dot"), sym("dots2"), sym("dots3"), sym("ab"), sym("abcd"), sym("ident"), sym("decimal"), sym("regex"), sym("slash"), sym("arrow"), sym("minus")]))
+        .rule("_item", choice(vec![sym("dot"), sym("dots2"), sym("dots3"), sym("ab"), sym("abcd"), sym("ident"), sym("decimal"), sym("regex"), sym("slash"), sym("arrow"), sym("minus"), sym("emoji"), sym("accented")]))
+        .rule("emoji", s("😀"))
+        .rule("accented", pat("[éà☃]+"))
         .rule("dot", s("."))
         .rule("dots2", s(".."))
         .rule("dots3", s("..."))
@@ -155,8 +157,8 @@ pub fn lexla() -> ZooLang {
         .rule("minus", s("-"));
     ZooLang {
         name: "lexla", spec: spec(g, None),
-        lexemes: vec![".", "..", "a", "ab", "abc", "d", "1", "/", "-", ">", " ", "\n"],
-        seeds: vec!["", "ab", "abcd", "abcx", "abc d", "a.b", "1.5", "1..5", "1...5", "1.x", "/ab/", "/ab", "/ ab /", "-->", "-- >", "--x", "ab abcd abc . .. ... 1.5.6", "....", "ab/cd/ef/"],
+        lexemes: vec![".", "..", "a", "ab", "abc", "d", "1", "/", "-", ">", " ", "\n", "😀", "é☃"],
+        seeds: vec!["", "ab", "abcd", "abcx", "abc d", "a.b", "1.5", "1..5", "1...5", "1.x", "/ab/", "/ab", "/ ab /", "-->", "-- >", "--x", "ab abcd abc . .. ... 1.5.6", "....", "ab/cd/ef/", "😀é☃à", "a😀b", "é.😀..☃"],
         skippable: b" \t\r\n", has_scanner: false,
     }
 }
